@@ -86,7 +86,7 @@ func (w *world) recvMalformed(class string, s core.Step) error {
 	n := 6
 	fmt.Sscan(w.opts["fuzz"], &n)
 	txT, batchT, blkT, ltT, peerT := w.h.Topics(w.host.ID())
-	from := w.peers[r.Intn(len(w.peers))]
+	from := w.peers[5] // never a sender of model blocks: it may get denied
 	send := func(topic string, raws [][]byte) {
 		for _, raw := range raws {
 			w.h.ReceiveRaw(topic, raw, from, from)
@@ -136,6 +136,7 @@ func (w *world) recvMalformed(class string, s core.Step) error {
 		blk := c.origBlock([]string{"G3"}, 1, int64(2200+r.Intn(50)))
 		pms := []*types.PeerPubSubMsg{
 			{MsgID: broadcast.VerifBlockRespMsgID, ProtoMsg: types.Encode(blk)},
+			{MsgID: broadcast.VerifBlockRespMsgID, ProtoMsg: types.Encode(blk)}, // the same block again
 			{MsgID: broadcast.VerifBlockRespMsgID},
 			{MsgID: broadcast.VerifBlockRespMsgID, ProtoMsg: mutate(r, types.Encode(blk))},
 			{MsgID: broadcast.VerifBlockRespMsgID, ProtoMsg: []byte{0xff, 0xff, 0xff}},
@@ -165,6 +166,10 @@ func (w *world) recvMalformed(class string, s core.Step) error {
 		}
 	default:
 		return fmt.Errorf("unknown malformed class %q", class)
+	}
+	// let manageDeniedPeer collect the module replies for what was forwarded (deny path)
+	if w.h.HasValidator() && !w.h.Tick(broadcast.VerifLoopDenied, stepWait) {
+		return fmt.Errorf("manageDeniedPeer does not take ticks")
 	}
 	return nil
 }
